@@ -67,12 +67,27 @@ def strip_comments(src):
 
 
 def read_sources(repo):
+    """every .rs file under src/ (recursively), keyed by base name (path-qualified on clashes)"""
     srcs = {}
     d = os.path.join(repo, "src")
-    for f in sorted(os.listdir(d)):
-        if f.endswith(".rs"):
-            srcs[f] = strip_comments(open(os.path.join(d, f)).read())
+    for root, _dirs, files in sorted(os.walk(d)):
+        for f in sorted(files):
+            if f.endswith(".rs"):
+                key = f if f not in srcs else os.path.relpath(os.path.join(root, f), d)
+                srcs[key] = strip_comments(open(os.path.join(root, f)).read())
     return srcs
+
+
+def find_src(srcs, hint, pattern):
+    """the text of the file that contains `pattern`: the usual file if it still does, else the
+    first other file that does (items move between files in refactorings), else ''"""
+    s = srcs.get(hint, "")
+    if re.search(pattern, s):
+        return s
+    for _f, t in sorted(srcs.items()):
+        if re.search(pattern, t):
+            return t
+    return ""
 
 
 def matching(src, i, open_c, close_c):
@@ -156,17 +171,9 @@ def parse_cfg(expr):
 PANICKY = re.compile(r"\b(?:assert|assert_eq|assert_ne|panic|unreachable|unimplemented)!|\.expect\s*\(|\.unwrap\s*\(\s*\)")
 
 
-def parse_new_guards(srcs):
-    """cfg predicates under which `new` contains a panicking statement.
-    Returns (guards, unguarded, known).  Every `#[cfg(X)]`-attributed block or statement of the
-    body that contains a panicking macro contributes X; a panicking macro outside all of them
-    counts as unconditional; a body without any is not understood (known = False)."""
-    s = srcs.get("newtype_macros.rs", "")
-    m = re.search(r"pub\s+(?:const\s+)?fn\s+new\s*\([^)]*\)\s*->\s*[$\w]+\s*\{", s)
-    if not m:
-        return [], False, False
-    end = matching(s, m.end() - 1, "{", "}")
-    body = s[m.end():end]
+def panicky_cfgs(body):
+    """(guards, unguarded, any): cfg predicates of the `#[cfg(X)]`-attributed blocks / statements
+    of `body` that contain a panicking macro; whether one occurs outside all of them"""
     guards = []
     covered = []     # (start, end) ranges of cfg-attributed items
     for mm in re.finditer(r"#\s*\[\s*cfg\s*\(", body):
@@ -206,6 +213,58 @@ def parse_new_guards(srcs):
     return guards, unguarded, any_panicky
 
 
+def fn_body(text, name):
+    m = re.search(r"\bfn\s+%s\s*(?:<[^>{]*>)?\s*\(" % re.escape(name), text)
+    if not m:
+        return None
+    b0 = text.find("{", m.end())
+    semi = text.find(";", m.end())
+    if b0 < 0 or (0 <= semi < b0):
+        return None
+    return text[b0 + 1:matching(text, b0, "{", "}")]
+
+
+def parse_new_guards(srcs):
+    """cfg predicates under which the checked constructor `new` panics on invalid input.
+    Returns (guards, unguarded, known).  Every `#[cfg(X)]`-attributed block or statement of the
+    body that contains a panicking macro contributes X; a panicking macro outside all of them
+    counts as unconditional.  If the body itself has none, the private helper functions it calls
+    (two levels) are looked at in the same way; if nothing is found the body is not understood
+    (known = False)."""
+    pat = r"pub\s+(?:const\s+)?fn\s+new\s*\(\s*\w+\s*:\s*\$\w+\s*\)\s*->\s*(?:\$\w+|Self)\s*\{"
+    s = find_src(srcs, "newtype_macros.rs", pat)
+    m = re.search(pat, s)
+    if not m:
+        return [], False, False
+    end = matching(s, m.end() - 1, "{", "}")
+    body = s[m.end():end]
+    alltext = "\n".join(srcs.values())
+    seen = set()
+    frontier = [body]
+    for _level in range(3):
+        guards, unguarded, found = [], False, False
+        nxt = []
+        for b in frontier:
+            g, u, f = panicky_cfgs(b)
+            guards += g
+            unguarded |= u
+            found |= f
+            for cm in re.finditer(r"\b([a-z_][a-z0-9_]*)\s*(?:::\s*<[^>]*>\s*)?\(", b):
+                name = cm.group(1)
+                if name in seen or name in ("if", "match", "while", "for", "return", "new", "is_valid", "concat", "stringify"):
+                    continue
+                seen.add(name)
+                fb = fn_body(s, name) or fn_body(alltext, name)
+                if fb is not None:
+                    nxt.append(fb)
+        if found:
+            return guards, unguarded, True
+        frontier = nxt
+        if not frontier:
+            break
+    return [], False, False
+
+
 def parse_features(repo):
     s = open(os.path.join(repo, "Cargo.toml")).read()
     m = re.search(r"^\[features\]\s*$(.*?)(?=^\[|\Z)", s, re.M | re.S)
@@ -241,7 +300,7 @@ def parse_const_names(srcs):
     """names of the controller_numbers::* constants: every `pub const X: ControllerNumber` of the
     source plus every documented 14-bit name (above) that the source still mentions as a word --
     however it declares it.  Their *values* come from the compiled implementation."""
-    s = srcs.get("controller_number_mod.rs", "")
+    s = find_src(srcs, "controller_number_mod.rs", r"pub\s+mod\s+controller_numbers\b")
     names = [m.group(1) for m in re.finditer(r"pub\s+const\s+(\w+)\s*:\s*ControllerNumber\b", s)]
     # entries of a declaring macro invocation: NAME = <literal>
     i = s.find("pub mod controller_numbers")
@@ -262,7 +321,7 @@ def parse_const_names(srcs):
 def parse_channel_mode_const(srcs, consts):
     """the constant is_channel_mode_message_controller_number compares with (>=), if the body has
     one of the recognised shapes; None otherwise (the tie is then by correspondence only)"""
-    s = srcs.get("controller_number_mod.rs", "")
+    s = find_src(srcs, "controller_number_mod.rs", r"fn\s+is_channel_mode_message_controller_number\b")
     m = re.search(r"fn\s+is_channel_mode_message_controller_number\s*\(\s*&self\s*\)\s*->\s*bool\s*\{(.*?)\}", s, re.S)
     if not m:
         return None
